@@ -48,6 +48,11 @@ def run(chk, tier):
         raise AnalysisBroken("FIPS oracle self-check failed: %r" % (e,))
     chk.rule("R-DES-TABLES", "compiled DES tables == derivation from FIPS 46-3; gen-des-tables.c base tables == FIPS")
     chk.rule("R-DES-SIBLINGS", "re-entrant and static obsolete DES entry points share one worker with unchanged arguments; salt 0, count 1")
+    # the DES core itself: bodies of des_set_key / des_set_salt / des_crypt_block interpreted with all loops unrolled, for both
+    # directions and several iteration counts; every table index and every walk over the key schedule stays in bounds, and
+    # the key schedule / salt bits stay below 2^24 (what the block function's table indexing relies on)
+    from .. import unit_contracts as U
+    U.oracle(chk, U.run(tier))
     chk.rule("R-DES-STATE", "static key schedule confined to setkey/encrypt")
     m, info = common.prog("shared")
     total = 0
